@@ -266,6 +266,28 @@ impl RealState {
                     Err(e) => (format!("err {e:?}"), None),
                 }
             }
+            ["real.gen", shape, n, brlens, distr, seed] => {
+                // a tree built by one of the crate's random generators (seeded through hook H1): a public construction like any other
+                let (Ok(n), Ok(seed)) = (n.parse::<usize>(), seed.parse::<u64>()) else { return bad };
+                let d = match *distr { "uniform" => phylotree::distr::Distr::Uniform, "exponential" => phylotree::distr::Distr::Exponential, _ => phylotree::distr::Distr::Gamma };
+                phylotree::verif::set_seed(seed);
+                let r = match *shape {
+                    "ete3" => phylotree::generate_tree(n, *brlens == "1", d),
+                    "yule" => phylotree::generate_yule(n, *brlens == "1", d),
+                    _ => phylotree::generate_caterpillar(n, *brlens == "1", d),
+                };
+                match r {
+                    Ok(t) => {
+                        self.tree = t;
+                        ("ok".into(), Some("nop".into()))
+                    }
+                    Err(e) => (format!("err {e:?}"), Some("nop".into())),
+                }
+            }
+            ["real.clone"] => {
+                self.tree = self.tree.clone();
+                ("ok".into(), Some("nop".into()))
+            }
             ["real.ladder", depth] => {
                 // a caterpillar of `depth` levels built through add_child (every branch of length 1): level i holds a leaf
                 // "L<i>" and the next internal node, the leaf first on even levels; the last internal node carries two leaves.
